@@ -357,7 +357,7 @@ theorem C13_image_refuses (m : Mgr) (hI : Inv m) (hV : VarsBij m.tbl)
       ∀ (p : Int × Int) (l : Nat), p ∈ intPairs (resolveRename m.tbl rn) → p.2 = (l : Int) →
         l ∉ q → (dependsOn m.tbl trans l ∨ dependsOn m.tbl source l) →
         image trans source rn qvars fa m = (.error .assertion, m)) :=
-  ⟨image_refuses_overlap m trans source rn qvars fa q hq,
+  ⟨image_refuses_overlap m hV trans source rn qvars fa q hq,
    fun hov hnl hlv p l hp hl hlq hdep =>
      image_refuses_target m hI hV trans source hu hv rn qvars fa q hq hov hnl hlv p hp l hl hlq
        hdep⟩
@@ -534,14 +534,23 @@ theorem C13_preimage_statement_false : ¬ C13_preimage_statement := by
     (imgM_mem _ (by decide)) (imgM_mem _ (by decide)) [(.lvl 0, .lvl 1)] [.lvl 1] false [1]
     hq hpre
   -- what the code returns
-  obtain ⟨r', c, m'', hrun, hden⟩ := imgM_F5_run
+  obtain ⟨r', c, m0, hrun, hden0⟩ := imgM_F5_run_ctx true
+  -- the decorated body runs with the context flag set; the flag is restored afterwards
+  obtain ⟨m'', hm'', hden⟩ : ∃ m'' : Mgr, m'' = { m0 with ctx := imgM.ctx } ∧
+      ∀ a, den m''.tbl r' a = !a 0 := ⟨_, rfl, hden0⟩
   have hpre' : preimage (-4) (-3) [(.lvl 0, .lvl 1)] [.lvl 1] false imgM = (.ok r', m'') := by
-    unfold preimage
-    have hav : assertValidRename [(Key.lvl 0, Key.lvl 1)] imgM = (.ok (), imgM) :=
-      assertValidRename_ok imgM imgM_varsBij _ (fun _ => by rw [imgM_nvars']; omega) (by decide)
-    have hfuel : 2 * imgM.nvars + 4 = 8 := by rw [imgM_nvars']
+    rw [hm'']
+    apply preimage_of_body_ok imgM imgM_varsBij (-4) (-3) _ _ false [1] hq
+    show preimageBody (-4) (-3) [(.lvl 0, .lvl 1)] [.lvl 1] false (imgMc true) = _
+    unfold preimageBody
+    have hq' : mapToLevelE (imgMc true).tbl [.lvl 1] = .ok [1] := hq
+    have hres' : resolveRename (imgMc true).tbl [(.lvl 0, .lvl 1)] = [(.lvl 0, .lvl 1)] := hres
+    have hav : assertValidRename [(Key.lvl 0, Key.lvl 1)] (imgMc true) = (.ok (), imgMc true) :=
+      assertValidRename_ok (imgMc true) imgM_varsBij _
+        (fun _ => by rw [imgMc_nvars']; omega) (by decide)
+    have hfuel : 2 * (imgMc true).nvars + 4 = 8 := by rw [imgMc_nvars']
     have hbk : badKeys [(Key.lvl 0, Key.lvl 1)] = [] := by decide
-    simp only [hq, hres, hav, hpairs, hbk, hfuel, hrun]
+    simp only [hq', hres', hav, hpairs, hbk, hfuel, hrun]
   rw [hpre'] at he
   have hr : r' = r := by
     have := congrArg Prod.fst he
@@ -602,16 +611,25 @@ theorem C13_preimage_needs_injective :
       rw [den_neg imgM3.tbl hW 3 _ (imgM3_mem _ (by decide)),
         den_neg imgM3.tbl hW 3 _ (imgM3_mem _ (by decide)), imgM3_den3, imgM3_den3]
       simp [upd])
-  obtain ⟨r', c, m'', hrun, hden⟩ := imgM3_noninj_run
+  obtain ⟨r', c, m0, hrun, hden0⟩ := imgM3_noninj_run_ctx true
+  obtain ⟨m'', hm'', hden⟩ : ∃ m'' : Mgr, m'' = { m0 with ctx := imgM3.ctx } ∧
+      ∀ a, den m''.tbl r' a = true := ⟨_, rfl, hden0⟩
   have hpre' : preimage 1 (-3) [(.lvl 0, .lvl 1), (.lvl 2, .lvl 1)] [.lvl 1] false imgM3 =
       (.ok r', m'') := by
-    unfold preimage
-    have hav : assertValidRename [(Key.lvl 0, Key.lvl 1), (Key.lvl 2, Key.lvl 1)] imgM3 =
-        (.ok (), imgM3) :=
-      assertValidRename_ok imgM3 imgM3_varsBij _ (fun _ => by rw [imgM3_nvars']; omega) hov
-    have hfuel : 2 * imgM3.nvars + 4 = 10 := by rw [imgM3_nvars']
+    rw [hm'']
+    apply preimage_of_body_ok imgM3 imgM3_varsBij 1 (-3) _ _ false [1] hq
+    show preimageBody 1 (-3) [(.lvl 0, .lvl 1), (.lvl 2, .lvl 1)] [.lvl 1] false (imgM3c true) = _
+    unfold preimageBody
+    have hq' : mapToLevelE (imgM3c true).tbl [.lvl 1] = .ok [1] := hq
+    have hres' : resolveRename (imgM3c true).tbl [(.lvl 0, .lvl 1), (.lvl 2, .lvl 1)] =
+        [(.lvl 0, .lvl 1), (.lvl 2, .lvl 1)] := hres
+    have hav : assertValidRename [(Key.lvl 0, Key.lvl 1), (Key.lvl 2, Key.lvl 1)] (imgM3c true) =
+        (.ok (), imgM3c true) :=
+      assertValidRename_ok (imgM3c true) imgM3_varsBij _
+        (fun _ => by rw [imgM3c_nvars']; omega) hov
+    have hfuel : 2 * (imgM3c true).nvars + 4 = 10 := by rw [imgM3c_nvars']
     have hbk : badKeys [(Key.lvl 0, Key.lvl 1), (Key.lvl 2, Key.lvl 1)] = [] := by decide
-    simp only [hq, hres, hav, hpairs, hbk, hfuel, hrun]
+    simp only [hq', hres', hav, hpairs, hbk, hfuel, hrun]
   rw [hpre'] at he
   have hr : r' = r := by
     have := congrArg Prod.fst he
